@@ -227,7 +227,7 @@ class C17(Check):
             "overflow (+, *, unary -), shift range, failed to_byte / to_int, substring range, map key}) x (call chain: all sequences of "
             "length 0..L over {plain function, closure, method, map callback, function of an imported module}) x (failing statement "
             "plain / inside if / else / while / from; for chains <= 1 also the failing expression as print argument, list element, if condition, "
-            "while condition, assert operand and string concatenation operand).  Each frame prints a line before calling the next.  Non-trivial = chain length >= 1.")
+            "while condition, assert operand and string concatenation operand); failures raised WHILE AN IMPORTED MODULE RUNS ITS TOP LEVEL (5 kinds x 0..2 functions below the top level x import form x import statement at module level / in a block / in a function x 1 or 2 modules between entry and failing module).  Each frame prints a line before calling the next.  Non-trivial = chain length >= 1.")
     assumptions = ["function labels are learnt from make_function/store pairs and method names in the loaded bytecode (hook H3), not guessed",
                    "block pseudo-frames (<if>, <else>, <while>) are not compared with the function list, but the report may show at most the blocks open at the failure (none of a finished loop or branch, none in a caller); a failure raised by a built-in method must list that built-in (<native code>#...) as the innermost line, other failures must not",
                    "stdout and stderr are captured through one pipe so that flush ordering is observable"]
@@ -249,7 +249,8 @@ class C17(Check):
         ctxs = ["print", "list", "cond", "while-cond", "assert", "interpolated"]
         l0b = [(ch, fk, "plain@" + cx) for ch in chains(0, 1) for fk in FAILS if FAILS[fk][0][-1].startswith("v = ") for cx in ctxs]
         l0h = [(ch, fk, pos + "+hist") for ch in chains(0, 2) for fk in ("assert", "index", "div-int") for pos in POSITIONS]
-        ls = [("L0-chains<=1-all-kinds-all-positions", l0), ("L0h-chains<=2-after-completed-loops-and-branches-in-every-active-function", l0h), ("L0b-chains<=1-failing-expression-in-6-statement-contexts", l0b),
+        limp = [("imp", fk, dpt, form, where, hops) for fk in self.IMP_FAILS for dpt in (0, 1, 2) for form in ("module", "names") for where in ("module", "if", "fn") for hops in (1, 2)]
+        ls = [("Li-failure-while-an-imported-module-initialises", limp), ("L0-chains<=1-all-kinds-all-positions", l0), ("L0h-chains<=2-after-completed-loops-and-branches-in-every-active-function", l0h), ("L0b-chains<=1-failing-expression-in-6-statement-contexts", l0b),
               ("L1-chains=2", l1), (f"L2-chains-3..{L}", l2)]
         if tier == "thorough":
             deep = [k for k in FRAME_KINDS if k in ("fn", "method", "callback")]
@@ -258,9 +259,107 @@ class C17(Check):
         return ls
 
     def describe(self, case):
+        if case[0] == "imp":
+            return {"failure while an imported module initialises": case[1], "functions between the module's top level and the failure": case[2], "import form": case[3],
+                    "import statement in": case[4], "modules between entry and failing module": case[5]}
         return {"chain": list(case[0]), "failure": case[1], "position": case[2]}
 
+    # a failure raised WHILE AN IMPORTED MODULE RUNS ITS TOP LEVEL (directly there, or in functions it calls): the trace lists those functions, the
+    # module's own top level, every importing module's top level (and the function that holds the import statement) down to the entry module
+    IMP_FAILS = ["assert", "div-int", "index", "get-nil", "overflow-add-boxed"]
+
+    def run_import_failure(self, case):
+        _, fk, depth, form, where, hops = case
+        init = ['print "init start"', "class Kf {", "\tf: int", "\tconstructor(self) {", "\t\tself.f = 1", "\t}", "}"]
+        for i in range(depth, 0, -1):
+            body = [f'print "enter {i}"'] + (fail_block(fk, "plain", 0) + ['print "after failure"', "return a"] if i == depth else [f"rr = g{i + 1}(a)", "return rr"])
+            init += [f"g{i} = fn(a: int) -> int {{"] + ["\t" + l for l in body] + ["}"]
+        init += (["a = 1"] + fail_block(fk, "plain", 0) + ['print "after failure"']) if depth == 0 else ["rq = g1(1)"]
+        init += ['print "init end"', "export done: int = 1"]
+        imp = {"module": "import {M}", "names": "import done from {M}"}[form]
+        files = {"initm.ms": "\n".join(init) + "\n"}
+        target = "initm"
+        exp = []
+        mods = ["initm"]
+        if hops == 2:
+            files["mid.ms"] = "\n".join(['print "mid start"', imp.replace("{M}", "initm"), 'print "mid end"', "export done: int = 2"]) + "\n"
+            target = "mid"
+            mods.append("mid")
+        stmt = imp.replace("{M}", target)
+        main = ['print "start"']
+        holder = None
+        if where == "module":
+            main += [stmt]
+        elif where == "if":
+            main += ["if true {", "\t" + stmt, "}"]
+        else:
+            main += ["hf = fn() {", "\t" + stmt, "}", "hf()"]
+            holder = "hf"
+        main += ['print "after import"']
+        files["x.ms"] = "\n".join(main) + "\n"
+        exp = ["start"] + (["mid start"] if hops == 2 else []) + ["init start"] + [f"enter {i}" for i in range(1, depth + 1)]
+        d = driver.fresh_dir()
+        driver.write_files(d, files)
+        du = os.path.join(d, "dump.txt")
+        res = driver.run(["run", "x.ms", "-q"], d, env={"MSCRIPT_VERIF_DUMP": du}, merge=True)
+        text = res.out
+        viol = []
+        desc = self.describe(case)
+        detail = {"files": files, "res": res.brief(), "expected_stdout": exp}
+
+        def bad(kind, what):
+            viol.append({"sig": {"kind": kind, "failure": fk, "innermost": "import-time"}, "what": f"{desc}: {what}", "detail": detail})
+        if driver.compile_rejected(driver.Res(res.exit, "", text)):
+            return {"outcome": "rejected", "nontrivial": False, "tags": ["rejected", f"rej-imp-{where}-{form}"], "show": text[-300:]}
+        if res.exit == 0 or res.cls != "error":
+            bad("not-an-mscript-error", f"expected a run-time error report, got {res.cls} (exit {res.exit}): {text[-200:]}")
+            return {"outcome": "imp-DIFF", "viol": viol, "nontrivial": True, "tags": ["imp"]}
+        tl = text.split("\n")
+        start = next((i for i, l in enumerate(tl) if driver.runtime_banner(driver.Res(1, "", l))), None)
+        if start is None:
+            bad("no-banner", f"exit 1 without the fatal run-time error report: {text[-200:]}")
+            return {"outcome": "imp-DIFF", "viol": viol, "nontrivial": True, "tags": ["imp"]}
+        before = [l for l in tl[:start] if l.strip() and not set(l.strip()) <= {"*"}]
+        after = "\n".join(tl[start:])
+        if before != exp:
+            bad("stdout", f"output before the banner should be {exp}, got {before}")
+        if any(l in after for l in ("after failure", "init end", "mid end", "after import")):
+            bad("ran-on", "statements after the failing one were executed")
+        got = []
+        for tl_ in after.split("\n"):
+            mfl = re.match(r"^[\s\W\d]*?(?:at\s+|in\s+)?(<native code>#\S+|[^\s#<>`'\"]+\.mmm#\S+?)[\s,;.:]*$", tl_)
+            if mfl and not mfl.group(1).startswith("<"):
+                got.append(mfl.group(1))
+        by_store, _ = learn_labels(load_dump(du))
+        want = []
+        for i in range(depth, 0, -1):
+            lab = by_store.get(f"g{i}")
+            if lab is None:
+                return {"outcome": "label-unknown", "machinery": f"could not learn the label of g{i} from the bytecode dump"}
+            want.append(lab)
+        want += [f"{m}.mmm#__module__" for m in mods]
+        if holder:
+            lab = by_store.get(holder)
+            if lab is None:
+                return {"outcome": "label-unknown", "machinery": "could not learn the label of hf from the bytecode dump"}
+            want.append(lab)
+        want.append("x.mmm#__module__")
+        norm = [os.path.basename(g.split("#")[0]) + "#" + g.split("#", 1)[1] for g in got]
+        wnorm = [os.path.basename(w.split("#")[0]) + "#" + w.split("#", 1)[1] for w in want]
+        if norm != wnorm:
+            bad("trace", f"trace should list {wnorm}, got {norm}")
+        if fk == "assert":
+            src = files["initm.ms"].split("\n")
+            ln = next(i + 1 for i, l in enumerate(src) if l.strip().startswith("assert "))
+            want_pos = f"initm.ms:{ln}:{src[ln - 1].index('assert') + 1}"
+            named = re.findall(r"[\w./-]+\.ms:\d+:\d+", after)
+            if not any(n == want_pos or n.endswith("/" + want_pos) for n in named):
+                bad("assert-position", f"assert is at {want_pos}; report names {named or None}")
+        return {"outcome": "imp-error" + ("-DIFF" if viol else ""), "viol": viol, "nontrivial": True, "tags": ["imp", f"f-{fk}"]}
+
     def run_case(self, case):
+        if case[0] == "imp":
+            return self.run_import_failure(case)
         chain, fk, pos = case
         files, exp, frames = build(chain, fk, pos)
         d = driver.fresh_dir()
